@@ -284,7 +284,10 @@ let decode_cmd (f : string list) : cmd =
   match a 0 with
   | "init" -> CInit
   | "new" -> CNew (str_of_hex (a 1), n_of_decimal (a 2), ascii_str ("x" ^ a 2 ^ " msg"))
-  | "refresh" -> CRefresh
+  | "refresh" ->
+      CRefresh (match List.nth_opt f 1 with
+                | Some x when x <> "_" -> Some (str_of_hex x)
+                | _ -> None)
   | "push" ->
       let fl = a 3 in
       CPush (opt_strs (a 1), opt_z (a 2), has_flag fl "all", has_flag fl "reverse",
